@@ -7,27 +7,3 @@
 package bytcase
 
 func VerifLower(c byte) byte { return _lower[c] }
-
-func VerifBruteForceIndexUnicode(s, substr []byte) int   { return bruteForceIndexUnicode(s, substr) }
-func VerifIndexRabinKarpUnicode(s, substr []byte) int    { return indexRabinKarpUnicode(s, substr) }
-func VerifIndexRabinKarpRevUnicode(s, substr []byte) int { return indexRabinKarpRevUnicode(s, substr) }
-func VerifHasPrefixUnicode(s, prefix []byte) (bool, bool) {
-	return hasPrefixUnicode(s, prefix)
-}
-func VerifHasSuffixUnicode(s, suffix []byte) (bool, int) { return hasSuffixUnicode(s, suffix) }
-func VerifIndexRuneCase(s []byte, r rune) int            { return indexRuneCase(s, r) }
-func VerifIndexRune(s []byte, r rune) (int, int)         { return indexRune(s, r) }
-func VerifIndexRune2(s []byte, lower, upper rune) (int, int) {
-	return indexRune2(s, lower, upper)
-}
-func VerifLastIndexRune(s []byte, r rune) int    { return lastIndexRune(s, r) }
-func VerifIndexByte(s []byte, c byte) (int, int) { return indexByte(s, c) }
-func VerifNonLetterASCII(s []byte) bool          { return nonLetterASCII(s) }
-func VerifContainsKelvin(s []byte) bool          { return containsKelvin(s) }
-func VerifCountRune(s []byte, r rune) int        { return countRune(s, r) }
-func VerifMakeASCIISet(s, chars []byte) ([8]uint32, bool) {
-	as, ok := makeASCIISet(s, chars)
-	return as, ok
-}
-func VerifHashStrUnicode(sep []byte) (uint32, uint32, int)    { return hashStrUnicode(sep) }
-func VerifHashStrRevUnicode(sep []byte) (uint32, uint32, int) { return hashStrRevUnicode(sep) }
